@@ -14,20 +14,20 @@ CLAIMS["C01"] = dict(
     technique="Coq proof by invariant/refinement over all chunk lists on a hand-written executable model + vm_compute correspondence with the implementation",
 )
 CLAIMS["C04"] = dict(
-    text="Coq theorems over ALL histories of compute_chunk / finalize / compute_full / frame_by_frame_calculation on one STFT instance with arbitrary stale buffer contents: after any idle point the outputs of any further operations equal those of a fresh instance (stale cells are never read), started is a fold of the history (true exactly from a chunk to the next finalize), mid-utterance compute_full / frame_by_frame_calculation are refused and leave the state untouched. Closed under the global context.",
-    note="Trusted: Coq kernel; model coq/Stft/Model.v tied by correspondence of random histories (outputs, exception kind, started after every call). The short-integration computer and the no-mutation / read-only-input clause are covered by the differential fresh-twin comparison only (bit-for-bit), not by proof.",
+    text="Coq theorems over ALL histories of compute_chunk / finalize / compute_full / frame_by_frame_calculation on one STFT instance with arbitrary stale buffer contents: after any idle point the outputs of any further operations equal those of a fresh instance (stale cells are never read), started is a fold of the history (true exactly from a chunk to the next finalize), mid-utterance compute_full / frame_by_frame_calculation are refused and leave the state untouched; fresh-twin theorems for the short-integration computer from any idle state; both models are proved equal to their re-assembly from the integer expressions extracted from compute.py on every run, and the work buffers are shown to be allocated once, as float64, at construction (their precision cannot depend on earlier utterances). Closed under the global context.",
+    note="Trusted: Coq kernel; model coq/Stft/Model.v tied by correspondence of random histories (outputs, exception kind, started after every call). The no-mutation / read-only-input clause is covered by the differential fresh-twin comparison only (bit-for-bit, histories mixing float16/32/64 utterances), not by proof.",
     technique="Coq proof (relational invariant over operation histories) + vm_compute correspondence + fresh-twin differential oracle",
 )
 
 CLAIMS["C02"] = dict(
-    text="Coq theorems: compute_full yields exactly (N + S/2)/S frames of frame_length samples for N >= L/2+1 and none below; frame k is the window [kS, kS+L) of the symmetrically padded signal whose every element is x[sym N (i - pad_left)] (reflection repeated as often as needed), equal to the documented slice of the signal for each style / kaldi_shift when no padding is involved; the segment walk of _compute_frame (and of the torch port) makes tap j meet full-spectrum bin (start+j) mod D for EVERY DFT size, start bin and length, never running out of fuel; hence for complex / analytic banks the accumulated coefficient equals the sum over the full spectrum of phi(X[k] H[k]) with H rebuilt by the documented recipe (abstract commutative monoid, Hermitian-symmetric spectrum); the default frame length keeps a DFT bin strictly inside every filter's support.",
-    note="Trusted: Coq kernel; hand-written models coq/Stft/Model.v (framing) and coq/Stft/Walk.v (walk), tied by exact probes (one-hot filters on a frame with half spectrum 1,2,3,.. for numpy and torch; index-coded frames); np.fft.rfft computes the DFT (Hermitian symmetry is a Section hypothesis). The real-bank factor 2, the energy coefficient, the log floor and float round-off are covered by the independent full-spectrum oracle (1e-8), not by a theorem. default_length_keeps_a_bin is over R (stdlib real axioms).",
+    text="Coq theorems: compute_full yields exactly (N + S/2)/S frames of frame_length samples for N >= L/2+1 and none below; frame k is the window [kS, kS+L) of the symmetrically padded signal whose every element is x[sym N (i - pad_left)] (reflection repeated as often as needed), equal to the documented slice of the signal for each style / kaldi_shift when no padding is involved; the segment walk of _compute_frame (and of the torch port) makes tap j meet full-spectrum bin (start+j) mod D for EVERY DFT size, start bin and length, never running out of fuel; hence for complex / analytic banks the accumulated coefficient equals the sum over the full spectrum of phi(X[k] H[k]) with H rebuilt by the documented recipe (abstract commutative monoid, Hermitian-symmetric spectrum); the default frame length keeps a DFT bin strictly inside every filter's support. The energy block, the per-filter post-processing (factor 2 of real banks, log floor) and the DFT-size rule are symbolically executed from compute.py on every run (gen/stft_scalar.py) and proved equal to the documented definitions: mean square (its root unless use_power) floored AFTER the root, 2 x sum then floor/log, first power of two at or beyond frame_length (dft_size_pad_spec: minimal, < 2L, powers of two are fixed points).",
+    note="Trusted: Coq kernel; hand-written models coq/Stft/Model.v (framing) and coq/Stft/Walk.v (walk), tied to the source by Stft/Tie.v (integer expressions extracted by gen/stft.py), Stft/ScalarTie.v (scalar blocks extracted by gen/stft_scalar.py) and by exact probes (one-hot filters on a frame with half spectrum 1,2,3,.. for numpy and torch; index-coded frames); np.fft.rfft computes the DFT (Hermitian symmetry is a Section hypothesis). Float round-off is covered by the independent full-spectrum oracle only (1e-8; it derives the DFT size from the documented rule and includes quiet / silent frames on both sides of the log floor). default_length_keeps_a_bin is over R (stdlib real axioms).",
     technique="Coq proofs (induction on the walk's fuel with a modular-arithmetic invariant; list/index algebra; cyclic re-indexing of sums) + exact vm_compute correspondence + independent numeric oracle",
 )
 
 CLAIMS["C14"] = dict(
-    text="Coq theorems: the flip-based padding and strided framing of pytorch_stft_frame_computer hands the filtering stage exactly compute_full's frames for EVERY signal length and every 0 < S <= L (torch_pad = np.pad symmetric incl. repeated reflection); both implementations share the segment walk proved correct for all D/start/len; empty results have the same number of columns; the energy coefficient identities over R; the torch pre-emphasis formulation equals the numpy one, which satisfies the documented recurrence.",
-    note="Trusted: Coq kernel; hand-written coq/Stft/Torch.v tied by exact capture of the frames at torch.fft.rfft (index-coded signals) and one-hot walk probes of the torch port; energy theorems over R (stdlib real axioms). Module-vs-NumPy values (float32 buffers: 2e-5 / 2e-3 tolerances), wrappers, TorchScript == eager, and the RNG distribution of PyTorchDither are differential only.",
+    text="Coq theorems: the flip-based padding and strided framing of pytorch_stft_frame_computer hands the filtering stage exactly compute_full's frames for EVERY signal length and every 0 < S <= L (torch_pad = np.pad symmetric incl. repeated reflection); both implementations share the segment walk proved correct for all D/start/len; empty results have the same number of columns; the energy coefficient identities over R; the torch pre-emphasis formulation equals the numpy one, which satisfies the documented recurrence; the torch port's energy block, per-segment doubling, final clamp/log and default DFT size (symbolically executed from torch.py on every run) equal numpy's for every list of segment sums.",
+    note="Trusted: Coq kernel; hand-written coq/Stft/Torch.v tied by exact capture of the frames at torch.fft.rfft (index-coded signals) and one-hot walk probes of the torch port; energy theorems over R (stdlib real axioms). Module-vs-NumPy values (float32 buffers: 2e-5 / 2e-3 tolerances), wrappers, TorchScript == eager, independence of the module state (train/eval, container, scripted) and the RNG distribution of PyTorchDither are differential only.",
     technique="Coq proof (list algebra; shared walk theorem; real identities) + exact vm_compute correspondence + numeric differential oracle",
 )
 CLAIMS["C11"] = dict(
